@@ -903,6 +903,10 @@ fn format_subexpression(
                 format_unary_op(op, output)?;
             } else {
                 format_unary_op(op, output)?;
+                if prefix_op_joins_operand(op, inner) {
+                    // Keep the two signs apart so they are not read back as a single different operator
+                    output.push(' ');
+                }
                 format_subexpression(inner, prec, OperatorSide::Right, output, context)?;
             }
         }
@@ -977,6 +981,21 @@ fn format_subexpression(
         output.push(')')
     }
     Ok(())
+}
+
+/// Check if a prefix operator written directly before its operand would merge with the start of the operand
+/// For example - applied to -x would be read as --x
+fn prefix_op_joins_operand(op: &ast::UnaryOp, operand: &ast::Expression) -> bool {
+    use ast::UnaryOp::*;
+    match operand {
+        ast::Expression::UnaryOperation(inner_op, _) => matches!(
+            (op, inner_op),
+            (Plus | PrefixIncrement, Plus | PrefixIncrement)
+                | (Minus | PrefixDecrement, Minus | PrefixDecrement)
+                | (AddressOf, AddressOf)
+        ),
+        _ => false,
+    }
 }
 
 /// Get the precedence of an expression
